@@ -205,7 +205,21 @@ def build(F):
                              dict(name='Stamp', fields=[dict(name='t', type='int64')])],
                    enums=[dict(name='Tier', values=['TIER_UNSPECIFIED', 'GOLD'])])
         files.append(res)
-        book_fields += [dict(name='author', type='Author'), dict(name='tier', type='enum:Tier')]
+        book_fields += [dict(name='author', type='Author'), dict(name='tier', type='enum:Tier'),
+                        # a field named like the other file's module: the import of that module must be aliased, and every
+                        # reference (direct, through a nested message, through a map entry) must use the same alias
+                        dict(name='common', type='Stamp'), dict(name='index', type='Book.Index')]
+        # a flattened parameter named like the module of the second file (the client refers to the module by an alias inside
+        # that method) next to a method that refers to the same module by its plain name
+        msgs += [dict(name='StampBookRequest', fields=[dict(name='name'), dict(name='common', type='Stamp')]),
+                 dict(name='GetAuthorRequest', fields=[dict(name='name')])]
+        methods += [dict(name='StampBook', **{'in': 'StampBookRequest', 'out': 'Stamp'},
+                         http=http('post', '/v1/{name=shelves/*/books/*}:stamp', '*'), sigs=['name,common'] if sig else []),
+                    dict(name='GetAuthor', **{'in': 'GetAuthorRequest', 'out': 'Author'},
+                         http=http('get', '/v1/{name=authors/*}'), sigs=['name'] if sig else [])]
+        book_msg.setdefault('messages', []).append(
+            dict(name='Index', fields=[dict(name='by_name', type='map:string,Author'), dict(name='stamp', type='Stamp'),
+                                       dict(name='authors', type='Author', repeated=True)]))
     if 'f_subpackage' in F:
         files.append(dict(name=f'{PDIR}/admin/admin_types.proto', package=PKG + '.admin',
                           messages=[dict(name='AdminThing', fields=[dict(name='name'), dict(name='level', type='int32')])]))
